@@ -87,6 +87,9 @@ def make_probe(desc, k):
         stmts = pre + [A.pr(A.Bin("+", A.Bin("+", S("<"), e()), S(">"))), A.pr(A.Bin("==", e(), concat)),
                        A.pr(A.Call(A.Prop(e(), "len", True), []))]
         exp = lines_of("<" + value + ">") + ["true", str(len(value.encode("utf-8")))]
+        # a plain literal directly on either side of one `+`, and two interpolated literals around one `+`
+        stmts += [A.pr(A.Bin("+", S("pre✓ "), e())), A.pr(A.Bin("+", e(), S(" post"))), A.pr(A.Bin("+", e(), e()))]
+        exp += lines_of("pre✓ " + value) + lines_of(value + " post") + lines_of(value + value)
         return {"stmts": stmts, "expect": exp, "tag": "interp_%d_slots" % len(slots), "what": "interpolated %r" % (P.render([A.ExprStmt(A.call("print", e()))]).text.strip(),)}
     if desc[0] == "effects":
         _, nslots, same_text = desc
